@@ -110,6 +110,12 @@ def run(chk):
             ("flush", "ENOSPC-stdout-after-pcap_stream", "flush(stdout)", {"stdout": "/dev/full", "pre": "let ps = pcap_stream(stdout);"}),
             ("pcap_read_next", "oversize-on-stdin", "pcap_read_next(pcap_stream(stdin))", {"stdin": pkt.pcap_header(snaplen=10) + pkt.pcap_record(1, 2, b"z" * 60)}),
             ("pcap_write", "ENOSPC-big", "pcap_write(pw, bigp)", {"pre": "let pw = pcap_open(\"/dev/full\", \"w\"); let bigp = pcap_read_next(pcap_open(%s));" % lit(os.path.join(work, "bigrec.pcap"))}),
+            # a pipe whose reader is gone (EPIPE; SIGPIPE is ignored by the Rust runtime, so the write itself fails)
+            ("write", "EPIPE-stdout-big", "write(stdout, %s)" % big, {"stdout": "epipe"}),
+            ("write", "EPIPE-stdout-packet", "write(stdout, bigp)", {"stdout": "epipe", "pre": "let bigp = pcap_read_next(pcap_open(%s));" % lit(os.path.join(work, "bigrec.pcap"))}),
+            ("flush", "EPIPE-stdout", "flush(stdout)", {"stdout": "epipe", "pre": "write(stdout, \"abc\");"}),
+            ("pcap_write", "EPIPE-stdout-big", "pcap_write(ps, bigp)", {"stdout": "epipe", "pre": "let ps = pcap_stream(stdout); let bigp = pcap_read_next(pcap_open(%s));" % lit(os.path.join(work, "bigrec.pcap"))}),
+            ("pcap_write", "EPIPE-stdout-many-small", "wr_many()", {"stdout": "epipe", "pre": "let ps = pcap_stream(stdout); let sp = pcap_read_next(pcap_open(%s)); fn wr_many() { let i = 0; let r = null; while i < 400 { r = pcap_write(ps, sp); if is_error(r) { return r; } i = i + 1; } return r; }" % lit(good)}),
             ("open", "EACCES-r", "open(%s)" % lit(secret), {"uid": "nobody"}),
             ("open", "EACCES-w", "open(%s, \"w\")" % lit(secret), {"uid": "nobody"}),
             ("open", "EACCES-a", "open(%s, \"a\")" % lit(secret), {"uid": "nobody"}),
@@ -144,7 +150,12 @@ def run(chk):
                 stdin_data = env["stdin"]
             elif env.get("stdin") == "closed":
                 kw["stdin_file"] = None
-            if env.get("stdout"):
+            if env.get("stdout") == "epipe":
+                rfd, wfd = os.pipe()
+                os.close(rfd)
+                fout = os.fdopen(wfd, "wb")
+                kw["stdout_file"] = fout
+            elif env.get("stdout"):
                 fout = open(env["stdout"], "wb")
                 kw["stdout_file"] = fout
             pre = None
